@@ -258,6 +258,10 @@ pub enum Op
     Broadcast(P),
     EntityEvent(Slot, P),
     TriggerRes(R),
+    /// Same as `Broadcast` / `EntityEvent` / `SysEvent`, but the payload owns one of the harness's clones of signal `k`.
+    BroadcastSig(P, u8),
+    EntityEventSig(Slot, P, u8),
+    SysEventSig(Inst, P, u8),
     // reactive ECS through commands
     Insert(Slot, C, u8),
     Remove(Slot, C),
